@@ -124,6 +124,29 @@ Theorem c12_no_final_newline_not_always_kept_refuted :
 Proof. exact no_trailing_newline_not_always_kept_refuted. Qed.
 Print Assumptions c12_no_final_newline_not_always_kept_refuted.
 
+(* ---- hunk application: a hunk with context replaces exactly the FIRST occurrence of its `before`
+   lines at or after the cursor (never an earlier one, never a later one) and moves the cursor
+   behind what it inserted; a hunk without context appends; missing context refuses the update *)
+Theorem c12_hunk_replaces_first_occurrence : forall (h : hunk) (r : list hunk) (ls : list line) (cur : nat),
+  h_before h <> [] -> forall res, apply_hunks_lines ls cur (h :: r) = Some res ->
+  exists pre post, ls = pre ++ h_before h ++ post /\ (cur <= List.length pre)%nat /\
+    (forall i, (cur <= i < List.length pre)%nat -> ~ occurs_at ls (h_before h) i) /\
+    apply_hunks_lines (pre ++ h_after h ++ post) (List.length pre + List.length (h_after h)) r = Some res.
+Proof. exact hunk_step. Qed.
+Print Assumptions c12_hunk_replaces_first_occurrence.
+
+Theorem c12_hunk_without_context_appends : forall (h : hunk) (r : list hunk) (ls : list line) (cur : nat),
+  h_before h = [] ->
+  apply_hunks_lines ls cur (h :: r) = apply_hunks_lines (ls ++ h_after h) (List.length (ls ++ h_after h)) r.
+Proof. exact hunk_append. Qed.
+Print Assumptions c12_hunk_without_context_appends.
+
+Theorem c12_hunk_missing_context_fails : forall (h : hunk) (r : list hunk) (ls : list line) (cur : nat),
+  h_before h <> [] -> (cur <= List.length ls)%nat ->
+  (forall i, (cur <= i)%nat -> ~ occurs_at ls (h_before h) i) -> apply_hunks_lines ls cur (h :: r) = None.
+Proof. exact hunk_missing_context_fails. Qed.
+Print Assumptions c12_hunk_missing_context_fails.
+
 (* ---- malformed documents: the parser is a total function; a rejected document touches nothing *)
 Theorem c12_malformed_untouched : forall (fixed : bool) (root : path) (f : fs) (input : list N),
   parse_patch input = None -> apply_patch fixed root f input = Failed f EINVALDATA.
